@@ -35,7 +35,10 @@ def variants_of(c):
     for name, v in c['variants'].items():
         if os.environ.get('PYVC_VARIANT') and os.environ['PYVC_VARIANT'] != name:
             continue
-        cv = {k: x for k, x in c.items() if k != 'variants'}
+        if c.get('quick_variants') and os.environ.get('VERIF_TIER', 'quick') != 'thorough' and not os.environ.get('PYVC_VARIANT') \
+                and name not in c['quick_variants']:
+            continue           # the remaining combinations are proved by the thorough tier
+        cv = {k: x for k, x in c.items() if k not in ('variants', 'quick_variants')}
         for k, x in v.items():
             if k in ('requires', 'ensures') and k in cv:
                 cv[k] = list(cv[k]) + list(x)
